@@ -326,6 +326,17 @@ func c13Judge(bg *[65536]uint8, sc *c13Scenario, x *sched.Scheduler, w *c13World
 			d = append(d, fmt.Sprintf("Run returned ErrBreakPoint at PC=%04X which is not a breakpoint", out.final.PC))
 		}
 	case out.err == context.Canceled || out.err == context.DeadlineExceeded:
+		// a Step that lands on a breakpoint or executes a HALT is reported as such even if the context became
+		// done while it was executing (C08: Run returns ErrBreakPoint / nil after that Step); a cancellation is
+		// only ever reported in place of a Step, never in place of the stop that a completed Step earned.
+		// (Zero reads: Run returned before its first Step, where the start PC may well be a breakpoint.)
+		if out.reads > 0 && sc.Runs <= 1 {
+			if _, hit := w.cpu.BreakPoints[out.final.PC]; hit {
+				d = append(d, fmt.Sprintf("Run returned %v although its last Step ended on the breakpoint %04X: that stop is lost (the caller's next Run starts with a Step and runs through it)", out.err, out.final.PC))
+			} else if w.cpu.HALT {
+				d = append(d, fmt.Sprintf("Run returned %v although its last Step executed a HALT (PC=%04X): Run returns nil after that Step", out.err, out.final.PC))
+			}
+		}
 		if out.lastCtxLive {
 			d = append(d, fmt.Sprintf("Run returned %v although its own context was never cancelled (only the context of an earlier Run on this CPU was)", out.err))
 		} else if !out.cancelled {
